@@ -17,7 +17,7 @@ func init() {
 		LevelText:   "The behavioural statement (all fault sequences × schedules) is a protocol property over replica histories and is not decided. Decided for all paths are the guards the protocol argument rests on: the old leader's loops are really joined before hand-over (the wait group is shared by pointer, close precedes Wait, stop precedes start); a new leader records its epoch before it serves; a follower truncates before it fetches and appends only same-epoch data that continues its log; the leader answers epoch queries from epoch+1 and truncation points are last+1 / hw+1; epoch and replica-progress stores are monotone; ISR shrink/expand decisions have the documented shape.",
 		LevelNote:   "Trusted: go/ssa; NATS request/reply delivery; the documented HW-fallback truncation (issue #38 in the code's own comment) is outside the claim.",
 		DesignRef:   "DESIGN.md §4 C02",
-		Explanation: "Round 10: R02.2 also: a follower asks the leader every time it starts following; R02.5 also: every entry of a replicated batch carries its own set's epoch. Round 9: the epochs read from the checkpoint file become the cache. Round 8: R02.2 also: the fallback truncation is skipped only for a log that ends at the watermark; R02.5 also: append records an epoch boundary as one entry's own (epoch, offset) and recognises a new epoch against the epoch cache's own newest epoch; nothing but epoch > latest ∧ offset >= latest controls the append to the epoch list. R02.2 also: the follower truncates to the leader's answer only when the request that produced it succeeded; R02.7 also: a replica re-enters the in-sync set only when its reported offset has reached the high watermark (F103); R04.5 (shared) progress counts only up to the leader's own log end (F99). R02.4 also: the epoch query tells 'found at -1' from 'not found' (F81); R02.8 also: Clean never moves the earliest epoch beyond the newest offset (F82); R02.7 also: the replica health check is armed with the lag period; R04.5 / R04.7 (shared) a new partition knows only its own progress and a term of leadership starts with an empty commit queue. R02.1 join before hand-over, R02.2 epoch recorded / truncate before start, R02.3 follower append guards, R02.4 leader-side guards and truncation points, R02.5 monotone epoch cache / replica offsets, R02.6 (shared R04.2, R07.4), R02.7 ISR shrink/expand shape, R02.8 leader epoch cache shapes (end of an epoch, trims at both ends, rebase, replace), shared R05.5 (epoch cache trimmed at the recovered log end), R04.5 (a re-added replica counts as holding nothing), R07.9 (persisted ISR rebuilt after the in-memory change). R15.8 (shared) clustering.replica.max.lag.time reaches its Config field. R08.8 a cleaning pass excludes every other rewrite of the segment list — log reconciliation's Truncate (known finding K14). NOT decided: replica agreement below the HW under fault sequences, HW-fallback truncation, ISR re-entry timing.",
+		Explanation: "Round 12: R05.5 (shared) every entry of the leader-epoch checkpoint enters the history; R05.8 also: the scan for missing epochs goes over the segment list; R02.4 reads the epoch test of a replication request through joined conditions. Round 10: R02.2 also: a follower asks the leader every time it starts following; R02.5 also: every entry of a replicated batch carries its own set's epoch. Round 9: the epochs read from the checkpoint file become the cache. Round 8: R02.2 also: the fallback truncation is skipped only for a log that ends at the watermark; R02.5 also: append records an epoch boundary as one entry's own (epoch, offset) and recognises a new epoch against the epoch cache's own newest epoch; nothing but epoch > latest ∧ offset >= latest controls the append to the epoch list. R02.2 also: the follower truncates to the leader's answer only when the request that produced it succeeded; R02.7 also: a replica re-enters the in-sync set only when its reported offset has reached the high watermark (F103); R04.5 (shared) progress counts only up to the leader's own log end (F99). R02.4 also: the epoch query tells 'found at -1' from 'not found' (F81); R02.8 also: Clean never moves the earliest epoch beyond the newest offset (F82); R02.7 also: the replica health check is armed with the lag period; R04.5 / R04.7 (shared) a new partition knows only its own progress and a term of leadership starts with an empty commit queue. R02.1 join before hand-over, R02.2 epoch recorded / truncate before start, R02.3 follower append guards, R02.4 leader-side guards and truncation points, R02.5 monotone epoch cache / replica offsets, R02.6 (shared R04.2, R07.4), R02.7 ISR shrink/expand shape, R02.8 leader epoch cache shapes (end of an epoch, trims at both ends, rebase, replace), shared R05.5 (epoch cache trimmed at the recovered log end), R04.5 (a re-added replica counts as holding nothing), R07.9 (persisted ISR rebuilt after the in-memory change). R15.8 (shared) clustering.replica.max.lag.time reaches its Config field. R08.8 a cleaning pass excludes every other rewrite of the segment list — log reconciliation's Truncate (known finding K14). NOT decided: replica agreement below the HW under fault sequences, HW-fallback truncation, ISR re-entry timing.",
 	})
 }
 
